@@ -9,7 +9,7 @@ RULE = ("a pool of deterministic requests (seeded keygen, deterministic sign, ve
         "1, 2, 4, 8 and 16 threads, each thread walking the pool in a different order for several rounds, every answer compared with "
         "the isolated one, (c) re-run sequentially in shuffled order after randomized operations. A source scan requires that the "
         "crate has no static mut / thread_local / interior-mutability construct outside tests and the verification hook (else: correspondence broken). "
-        "distinct_nontrivial = distinct pool requests; evaluations adds the calls made inside the interleaved runs.")
+        "distinct_nontrivial = distinct pool requests; evaluations adds the calls made inside the interleaved runs. Refused calls (short output buffer, short public key) inside ordered histories; several verifications on one PublicKey object.")
 EXPLANATION = ("Props/C10.lean: history independence of drawing-free operations in the sequential machine. The OS scheduler is not "
                "modelled; a race that never manifests in the explored schedules is outside what this technique can exhibit (partial).")
 ASSUMPTIONS = ["thread schedules are sampled (harness threads), not enumerated"]
